@@ -48,7 +48,7 @@ Theorem C07_nodeset_canonical_refuted_default_attribute :
     doc_inv_b doc = false /\ Known07_ns e = false /\
     fst (query doc e ctx_default) = Ok (XNodes l) /\ ~ StronglySorted (doc_lt doc) l.
 Proof.
-  exists dtd_doc, dtd_doc_e0, [6; 4]%N. destruct default_attribute_not_canonical as [H1 [H2 H3]].
+  exists dtd_doc, dtd_doc_e0, [5; 4]%N. destruct default_attribute_not_canonical as [H1 [H2 H3]].
   split; [vm_compute; reflexivity|]. split; [unfold Known07_ns; rewrite H3; reflexivity|]. split; assumption.
 Qed.
 
@@ -130,16 +130,16 @@ Proof. exact filter_position_lemma. Qed.
 Example C07_example_doc : DocInv ex_doc /\ good ex_doc doc_root.
 Proof. split; [exact ex_doc_inv|exact ex_good_root]. Qed.
 Example C07_example_following :
-  Known07_ns ex_doc_e0 = false /\ fst (query ex_doc ex_doc_e0 ctx_default) = Ok (XNodes [10; 12; 14]%N).
+  Known07_ns ex_doc_e0 = false /\ fst (query ex_doc ex_doc_e0 ctx_default) = Ok (XNodes [9; 11; 13]%N).
 Proof. destruct ex_following as [_ [H1 H2]]. unfold Known07_ns. rewrite H1. split; [reflexivity|exact H2]. Qed.
 Example C07_example_pi :
   DocInv pi_doc /\ fst (query pi_doc pi_doc_e0 ctx_default) = Ok (XNodes [3; 5; 6]%N).
 Proof. split; [exact pi_doc_inv|exact (proj1 pi_examples)]. Qed.
-Example C07_example_filter : fst (query ex_doc ex_doc_e1 ctx_default) = Ok (XNodes [5]%N).
+Example C07_example_filter : fst (query ex_doc ex_doc_e1 ctx_default) = Ok (XNodes [4]%N).
 Proof. exact ex_filter_second. Qed.
 Example C07_example_union :
-  fst (query ex_doc ex_doc_e2 ctx_default) = Ok (XNodes [5; 10]%N) /\
-  fst (query ex_doc ex_doc_e3 ctx_default) = Ok (XNodes [5; 10]%N).
+  fst (query ex_doc ex_doc_e2 ctx_default) = Ok (XNodes [4; 9]%N) /\
+  fst (query ex_doc ex_doc_e3 ctx_default) = Ok (XNodes [4; 9]%N).
 Proof. exact ex_union_both_orders. Qed.
 
 Print Assumptions C07_nodeset_key_sorted.
